@@ -367,6 +367,7 @@ class Interp:
             flds = cinfo.dataclass_fields()
             args = list(args)
             kwargs = dict(kwargs)
+            initvars = []
             for (n, ann, dflt, owner) in flds:
                 init_flag, default, factory = True, UNBOUND, None
                 if dflt is not None and isinstance(dflt, ast.Call) and ast.unparse(dflt.func) in ("field", "dataclasses.field"):
@@ -379,8 +380,16 @@ class Interp:
                             factory = kw.value
                 elif dflt is not None:
                     default = self.eval(dflt, ClassBodyEnv(self, owner), owner.module, owner)
-                if "InitVar" in ast.unparse(ann):
-                    self.outside("dataclass InitVar", node)
+                if "InitVar" in ast.unparse(ann):       # init-only pseudo-field: a parameter of __init__ handed to __post_init__, no attribute
+                    if args:
+                        initvars.append(args.pop(0))
+                    elif n in kwargs:
+                        initvars.append(kwargs.pop(n))
+                    elif default is not UNBOUND:
+                        initvars.append(default)
+                    else:
+                        self.raise_builtin("TypeError", f"{cinfo.name}: missing argument {n}")
+                    continue
                 if init_flag and args:
                     obj.fields[n] = args.pop(0)
                 elif init_flag and n in kwargs:
@@ -395,7 +404,7 @@ class Interp:
                 self.raise_builtin("TypeError", f"{cinfo.name}: unexpected arguments {sorted(kwargs)}")
             post = cinfo.find_method("__post_init__")
             if post is not None:
-                self.call_function(post, obj, [], {}, node)
+                self.call_function(post, obj, initvars, {}, node)
             return obj
         if args or kwargs:
             self.raise_builtin("TypeError", f"{cinfo.name}() takes no arguments")
@@ -510,6 +519,13 @@ class Interp:
             ops.setattr_(self, o, t.attr, v, t)
         elif isinstance(t, ast.Subscript):
             o = self.force(self.eval(t.value, env, module, cls))
+            if isinstance(t.slice, ast.Slice):       # slice assignment: in-place replacement of a part of a native list
+                lo = self.force(self.eval(t.slice.lower, env, module, cls)) if t.slice.lower is not None else None
+                hi = self.force(self.eval(t.slice.upper, env, module, cls)) if t.slice.upper is not None else None
+                if t.slice.step is not None or not isinstance(o, list) or not all(x is None or isinstance(x, int) for x in (lo, hi)):
+                    self.outside("slice assignment on something else than a concrete list with concrete bounds", t)
+                o[lo:hi] = ops.iterate(self, v, t)
+                return
             k = self.eval(t.slice, env, module, cls)
             ops.setitem(self, o, k, v, t)
         elif isinstance(t, (ast.Tuple, ast.List)):
